@@ -6,7 +6,7 @@ import aggrgen
 def run(ctx):
     ctx.prove("C03")
     q = ctx.tier == "quick"
-    aggrgen.run_k(ctx, 270 if q else 7800, 14 if q else 200)
+    aggrgen.run_k(ctx, 270 if q else 7800, 14 if q else 200, tag="c03q" if q else "c03t")
     ctx.cov["rule"] = ("one case = a script of 1-2 statements over one generated dataset (2-3 identifiers so that non-grouped identifiers repeat, "
                        "0-3 measures of Integer/Number/String/Boolean where the operator admits them, 0-200 datapoints, nulls 0/25/60 %, all-null "
                        "groups) whose last statement is op(DS [group by|group except ids] [having c]) or DS[aggr n := op(comp)|count(), … "
